@@ -224,8 +224,21 @@ func (sapp *serverApp) checkRoot() error {
 	return nil
 }
 
+// checkReadTimeout refuses a negative timeout: it would silently behave like "no timeout".
+func (sapp *serverApp) checkReadTimeout() error {
+	if sapp.ReadTimeout < 0 {
+		return fmt.Errorf("read timeout %s is negative", sapp.ReadTimeout)
+	}
+
+	return nil
+}
+
 func (sapp *serverApp) Run() error {
 	if err := sapp.checkRoot(); err != nil {
+		return err
+	}
+
+	if err := sapp.checkReadTimeout(); err != nil {
 		return err
 	}
 
